@@ -439,6 +439,20 @@ def gen_case(rng, tier='quick'):
                     ops.append(['solve', i_, add_nested(rng, gen_opts(rng, 0.8), insts[i_])])
             clients.append(ops)
         case['churn'] = None
+        if rng.random() < 0.3:
+            # one options dictionary OBJECT handed to several concurrent calls: a solver that writes into its
+            # options, even temporarily, is seen by its siblings (a before/after comparison alone would miss it)
+            common = add_nested(rng, gen_opts(rng, 0.8), insts[0]) if False else gen_opts(rng, 0.8)
+            common.pop('glpk', None)
+            common.pop('dsdp', None)
+            hit = 0
+            for ops in clients:
+                for o_ in ops:
+                    if o_[0] == 'solve' and o_[2] is not None and invalid_reason(o_[2], insts[o_[1]]) is None and rng.random() < 0.6:
+                        o_[2] = dict(common)
+                        o_.append('shared')
+                        hit += 1
+            case['shared_options'] = hit >= 2
         if rng.random() < 0.5:
             ops = []
             for _ in range(rng.randint(2, 10)):
@@ -582,7 +596,7 @@ def run_case(case, refs=None):
         row = []
         for op in ops:
             if op[0] == 'solve':
-                _, idx, kw = op
+                idx, kw = op[1], op[2]
                 if mode == 'history':
                     eff = dict(kw) if kw is not None else dict(model)
                     gl = dict(model)
@@ -610,6 +624,8 @@ def run_case(case, refs=None):
     gops = []     # global-option operations in executed order
     noise = [0]
 
+    shared_kw = {}
+
     def body_for(ci):
         ops = clients[ci]
 
@@ -620,6 +636,8 @@ def run_case(case, refs=None):
                     inst = insts[op[1]]
                     m = prepare(inst, shared[op[1]] if shared is not None else materialise(inst))
                     kw = dict(op[2]) if op[2] is not None else None
+                    if len(op) > 3 and op[3] == 'shared' and case.get('shared_options'):
+                        kw = shared_kw.setdefault('obj', kw)         # the same dictionary object for all marked calls
                     img0 = O.image([m, kw])
                     snap0 = O.globals_snapshot()
                     cst0 = _CSTATE[0].snapshot()
@@ -813,6 +831,8 @@ def run_case(case, refs=None):
             bump('fault.garbled_global_values', sum(1 for o in clients[churn] if o[0] == 'set' and (o[1], o[2]) in INVALID))
         if case.get('share'):
             bump('fault.shared_input_matrices_runs')
+        if case.get('shared_options'):
+            bump('fault.shared_options_object_runs')
     else:
         nchanges = sum(1 for o in clients[0] if o[0] != 'solve')
         nontrivial = nsolves >= 3 and nchanges >= 2
